@@ -691,7 +691,7 @@ def build_world(cfg):  # noqa: PLR0915, C901
             for ln in lines[1:]:
                 k, _, v = ln.partition(b':')
                 hd[k.strip().lower().decode()] = v.strip().decode('latin-1')
-            if method not in ('POST', 'GET') or it['kind'] == 'bad_header':
+            if method not in ('POST', 'GET') or it['kind'] == 'bad_header' or it['kind'].startswith('hdr_fuzz'):
                 break
             cl = hd.get('content-length')
             clc = [0, 0] if not cl else [1, int(cl)] if cl.isdigit() else [2, 0] if re.fullmatch(r'-\d+', cl) else [3, 0]
@@ -1208,6 +1208,29 @@ def inject_ref(rng, rest, ref):
     return rest[:p] + ref + rest[p:]
 
 
+HDR_VALUES = {
+    'Content-Length': ['abc', '1e3', '3, 3', '+', '-', '-1', '-0', '0', '', ' ', '0x10', '1.5', '99999999999999999999', '1_0', '3;q=1',
+                       '\u00b2', '5 5', 'None'],
+    'Transfer-Encoding': ['chunked, chunked', 'gzip, chunked', 'chunked;q=1', 'identity', 'gzip', '', 'Chunked ', 'chunkedx', ',', 'abc'],
+    'Content-Encoding': ['', 'gzip, gzip', 'GZIP', 'identity', 'br', ',', 'gzip;q=1', 'x-lz4', 'lz4', 'none', 'deflate'],
+    'Accept-Encoding': ['', ',', ';;', 'gzip;q=abc', 'gzip;q=', 'gzip;q=1e999', 'gzip;q=-1', '*', 'x' * 5000, 'gzip,' * 500, 'gzip;q=nan',
+                        '\u00e9\u00e8', 'identity;q=0, *;q=0'],
+    'Host': ['', ' ', 'a b', 'x' * 3000, '[::1', 'h:abc', 'h:99999999', '-', '\u00e9'],
+    'Connection': ['close', 'keep-alive', 'upgrade', '', 'close, keep-alive', 'Keep-Alive, Upgrade', 'abc', 'TE'],
+    'Expect': ['100-continue', '100-Continue', '101-foo', '', 'abc', '100-continue, 100-continue'],
+}
+HDR_METHODS = ['POST', 'POST', 'GET', 'GET', 'GET', 'HEAD', 'PUT', 'DELETE', 'OPTIONS', 'BREW']
+
+
+def header_fuzz(rng, headers, field=None):
+    """replace / add one header field with a value of the nasty list; returns (headers, field, value)"""
+    field = field or rng.choice(list(HDR_VALUES))
+    value = rng.choice(HDR_VALUES[field])
+    hs = [h for h in headers if h[0].lower() != field.lower()]
+    hs.insert(rng.randrange(len(hs) + 1), (field, value))
+    return hs, field, value
+
+
 def direct_reads(W, body, marker):
     """the same bytes handed to MessageReader.read_received_message of the provider and of the consumer (the reader of
     requests, notifications, responses and WS-Discovery datagrams), with and without schema validation"""
@@ -1349,10 +1372,24 @@ def run_world(cfg):  # noqa: PLR0915, C901, PLR0912
         m = re.search(rb'Action[^>]*>([^<]+)<', data)
         if m and m.group(1).decode() not in known_actions:
             known_actions.append(m.group(1).decode())
-        family = rng.choices(['xml', 'bytes', 'path', 'frame', 'entity'], [0.4, 0.22, 0.1, 0.18, 0.1])[0]
+        family = rng.choices(['xml', 'bytes', 'path', 'frame', 'entity', 'header'], [0.36, 0.2, 0.09, 0.15, 0.08, 0.12])[0]
         method, headers, framing, body = 'POST', list(default_headers), {}, data
         marker = None
-        if family == 'entity':
+        if family == 'header':
+            # one nasty header field value, for every method the handler implements and some it does not
+            method = rng.choice(HDR_METHODS)
+            headers, field, value = header_fuzz(rng, headers)
+            op = f'{method}:{field}'
+            if method != 'POST':
+                path = rng.choice([dev + '/Get/?wsdl', path, dev])
+                body = None if rng.random() < 0.7 else data
+            if field == 'Content-Length':
+                headers = [h for h in headers if h[0] != 'Content-Length']
+                if body is None:
+                    headers.append(('Content-Length', value))
+                else:
+                    framing = {'cl': value}
+        elif family == 'entity':
             marker = f'ENT{rng.getrandbits(48):012x}Z'
             for _try in range(4):
                 op = rng.choice(ENTITY_OPS)
@@ -1489,7 +1526,7 @@ def run_world(cfg):  # noqa: PLR0915, C901, PLR0912
     seq_valid_types = ['GetMdib', 'GetMdState', 'GetContextStates', 'Probe', 'TransferGet', 'GetMetadata', 'SetString', 'SetValue',
                        'Subscribe', 'GetMdDescription']
     seq_kinds = ['valid', 'valid', 'valid', 'unknown_path', 'unknown_path', 'smuggle_post', 'smuggle_post', 'smuggle_get', 'bad_method',
-                 'bad_header', 'bad_xml', 'framing_error', 'unsupported_ce', 'oversized_unknown', 'get', 'get_unknown']
+                 'bad_header', 'bad_xml', 'framing_error', 'unsupported_ce', 'oversized_unknown', 'get', 'get_unknown', 'hdr_fuzz', 'hdr_fuzz']
 
     def mid(data):
         m = re.search(rb'MessageID[^>]*>([^<]+)<', data)
@@ -1534,6 +1571,25 @@ def run_world(cfg):  # noqa: PLR0915, C901, PLR0912
             return {'kind': kind, 'raw': W.build_raw('GET', dev + '/Get/?wsdl', H, None, {}), 'expect': 200}
         if kind == 'get_unknown':
             return {'kind': kind, 'raw': W.build_raw('GET', '/deadbeef/x', H, None, {}), 'expect': 404}
+        if kind == 'hdr_fuzz':
+            # a nasty header field value on a request without body (GET / HEAD / ...) or on a POST whose body framing stays
+            # consistent (an invalid Content-Length is answered 400 and closes); the connection may be closed, it must be answered
+            method = rng.choice(['GET', 'GET', 'GET', 'POST', 'HEAD', 'OPTIONS'])
+            hs, field, value = header_fuzz(rng, H)
+            if method == 'POST':
+                if field == 'Content-Length':
+                    value = rng.choice(['abc', '1e3', '3, 3', '+', '-1', '1.5', '0x10'])
+                    return {'kind': kind + ':POST:' + field, 'raw': W.build_raw('POST', path, [h for h in hs if h[0] != field], data, {'cl': value}),
+                            'closes': 'may', 'expect': 400}
+                if field in ('Transfer-Encoding', 'Content-Encoding', 'Expect'):
+                    field = 'Accept-Encoding'
+                    hs, field, value = header_fuzz(rng, H, field)
+                return {'kind': kind + ':POST:' + field, 'raw': W.build_raw('POST', path, hs, data, {}), 'closes': 'may', 'expect': None,
+                        'valid': True, 'message_id': mid(data)}     # still a complete request: it may be executed
+            if field == 'Content-Length':
+                hs = [h for h in hs if h[0] != field] + [(field, value)]
+            return {'kind': f'{kind}:{method}:{field}', 'raw': W.build_raw(method, rng.choice([dev + '/Get/?wsdl', '/deadbeef/x']), hs, None, {}),
+                    'closes': 'may', 'expect': None}
         raise ValueError(kind)
 
     for _ in range(cfg.get('n_seq', 0)):
